@@ -1724,6 +1724,12 @@ class Interp(object):
                 return l == r
             except Exception:
                 return False
+        if isinstance(l, slice) or isinstance(r, slice):
+            if not (isinstance(l, slice) and isinstance(r, slice)):
+                return False
+            return all(self.truth_value(self.equal(a, b, node), node)
+                       for a, b in zip((l.start, l.stop, l.step),
+                                       (r.start, r.stop, r.step)))
         if isinstance(l, Opaque) or isinstance(r, Opaque):
             return _Cond('eq:%s' % ast.unparse(node))
         raise Undecided('equality of %r and %r' % (l, r))
